@@ -29,7 +29,15 @@ def run(prog, an, rep):
                'list and PR state')
     rep.run_rules(prog, an, [gates_dominate_effects, gate_effects,
                              early_checks_rules, class_flags,
-                             dependencies_rules, option_handler])
+                             dependencies_rules, option_handler,
+                             addressed_comments])
+
+
+def addressed_comments(prog, an, rep):
+    """A `wait` comment holds the pull request only if the reactor takes it
+    as addressed to the robot: the same rule as C07's."""
+    from .c07 import addressed_to_robot
+    addressed_to_robot(prog, an, rep)
 
 
 def gates_dominate_effects(prog, an, rep):
